@@ -148,6 +148,14 @@ func (fr *frame) prepareCall(c *ssa.CallCommon) (Value, []Value) {
 }
 
 func (ex *Exec) load(p Ptr) Value {
+	if p.cells != nil {
+		// table[i] with symbolic i: ite(i==0, t0, ite(i==1, t1, ...)); the bounds check was done at the IndexAddr
+		out := p.cells[len(p.cells)-1].(*term.T)
+		for k := len(p.cells) - 2; k >= 0; k-- {
+			out = term.Ite(term.Eq(p.cidx, term.Const(64, uint64(k))), p.cells[k].(*term.T), out)
+		}
+		return out
+	}
 	if p.cell != nil {
 		if ex.race != nil {
 			ex.raceRecord(p.cell, false)
@@ -180,6 +188,33 @@ func (ex *Exec) store(p Ptr, v Value) {
 		return
 	}
 	ex.rtPanic("invalid memory address or nil pointer dereference")
+}
+
+// symIndexPtr: a symbolic index into a vector of 2..1024 scalar cells of one width whose address is only ever loaded
+// from becomes a read-only "selected element" pointer (no fork per index).
+func (ex *Exec) symIndexPtr(x *ssa.IndexAddr, cells []Value, idx *term.T) (Ptr, bool) {
+	if idx.IsConst() || len(cells) < 2 || len(cells) > 1024 || ex.race != nil {
+		return Ptr{}, false
+	}
+	refs := x.Referrers()
+	if refs == nil || len(*refs) == 0 {
+		return Ptr{}, false
+	}
+	for _, r := range *refs {
+		u, ok := r.(*ssa.UnOp)
+		if !ok || u.Op != token.MUL {
+			return Ptr{}, false
+		}
+	}
+	var w uint8
+	for i, c := range cells {
+		t, ok := c.(*term.T)
+		if !ok || (i > 0 && t.W != w) {
+			return Ptr{}, false
+		}
+		w = t.W
+	}
+	return Ptr{cells: cells, cidx: toW64(idx, true)}, true
 }
 
 // boundsCheck forks on 0 <= idx < n (idx signed 64-bit as Go int).
@@ -235,6 +270,9 @@ func (ex *Exec) indexAddr(x *ssa.IndexAddr, v Value, idx *term.T) Value {
 	switch a := v.(type) {
 	case Slice:
 		ex.boundsCheck(idx, u64(uint64(a.len)), "slice")
+		if p, ok := ex.symIndexPtr(x, a.b.cells[a.off:a.off+a.len], idx); ok {
+			return p
+		}
 		i := ex.Concretize(idx)
 		return Ptr{cell: &a.b.cells[a.off+int(i)]}
 	case BSlice:
@@ -255,6 +293,9 @@ func (ex *Exec) indexAddr(x *ssa.IndexAddr, v Value, idx *term.T) Value {
 		switch arr := (*a.cell).(type) {
 		case Array:
 			ex.boundsCheck(idx, u64(uint64(len(arr))), "array")
+			if p, ok := ex.symIndexPtr(x, arr, idx); ok {
+				return p
+			}
 			i := ex.Concretize(idx)
 			return Ptr{cell: &arr[i]}
 		case *ByteArr:
